@@ -49,6 +49,10 @@ def oracle(program, aux):
     run = Run(program)
     run.run_all()
     run.stats = {'c01_domain': 0}
+    for pr in run.problems:
+        if '/accepted-but-must-refuse/old-path-is-a-udf-symlink' in pr.sig:
+            # the new name would be a regular file made of the symlink's path components, not the symlink the user built
+            failures.append(('C10/' + pr.sig, 'tree', 'step %d: %s' % (pr.step, pr.msg)))
     img = None if (run.dead or run.problems) else run.write()
     if img is None:
         run.stats['c01_domain'] += 1
